@@ -6,5 +6,6 @@ CONSTANTS
   KindSet = {"req", "any", "via", "viaimpl"}
   AllowSeed = TRUE
   MaxLvl = 3
+  MidEval = TRUE
 POSTCONDITION Post
 CHECK_DEADLOCK FALSE
